@@ -761,7 +761,7 @@ def check_playq(case):
 
 def run_playq(rep):
     quick = rep.tier == 'quick'
-    n = 400 if quick else 4000
+    n = 1500 if quick else 12000
     rng = rep.rng
     plays = 0
     samples = []
